@@ -74,12 +74,25 @@ def comment_regex(D):
     return re.compile("(?:" + "|".join(parts) + ")*", re.S)
 
 
-def check_tokens(ctx, sql, d, D, gap_re, case):
+_PRIMERS = ["SELECT 1\n", "SELECT 'a\nb'\r\n", "x -- c\n", "SELECT 1 /* c */\r", "'unterminated"]
+
+
+def check_tokens(ctx, sql, d, D, gap_re, case, reused=None, k=0):
     from sqlglot.errors import TokenError
 
     dn = d or "base"
     try:
-        toks = list(D.tokenize(sql))
+        if reused is not None:
+            # a long-lived Tokenizer object that has just handled another input (ending in a line break, inside a comment,
+            # or with an error): positions of this input must not depend on that
+            try:
+                reused.tokenize(_PRIMERS[k % len(_PRIMERS)])
+            except TokenError:
+                pass
+            toks = list(reused.tokenize(sql))
+            ctx.count("token_streams_from_reused_tokenizer")
+        else:
+            toks = list(D.tokenize(sql))
     except TokenError as e:
         ctx.count("token_errors")
         s, en = getattr(e, "start", None), getattr(e, "end", None)
@@ -236,6 +249,7 @@ def worker(ctx):
     dialects = dialect_names()
     Ds = {d: Dialect.get_or_raise(d) for d in dialects}
     gap_res = {d: comment_regex(Ds[d]) for d in dialects}
+    TK, nreuse = {}, 0
     for i in ctx.mine(SPEC[ctx.tier]["statements"]):
         if ctx.expired():
             break
@@ -264,6 +278,11 @@ def worker(ctx):
                 toks = check_tokens(ctx, text, d, Ds[d], gap_res[d], case)
                 if toks is not None:
                     check_parse(ctx, text, d, case)
+                    nreuse += 1
+                    if nreuse % 3 == 0:
+                        if d not in TK:
+                            TK[d] = Ds[d].tokenizer()
+                        check_tokens(ctx, text, d, Ds[d], gap_res[d], {**case, "reused_tokenizer": True}, reused=TK[d], k=nreuse // 3)
         if i % 301 == 0:
             ctx.sample({"text": variants[0]})
     if ctx.shard == 0:
@@ -292,6 +311,10 @@ def replay(rec):
     d = "" if case.get("dialect") in (None, "base") else case["dialect"]
     D = Dialect.get_or_raise(d)
     toks = check_tokens(ctx, case["sql"], d, D, comment_regex(D), case)
+    if case.get("reused_tokenizer"):
+        tk = D.tokenizer()
+        for k in range(len(_PRIMERS)):
+            check_tokens(ctx, case["sql"], d, D, comment_regex(D), case, reused=tk, k=k)
     if toks is not None:
         check_parse(ctx, case["sql"], d, case)
     return ctx.report()
